@@ -5,9 +5,9 @@ import glob, json, os, shutil
 
 OUT = "/verif/seeded"
 rows = []
-for m in sorted(glob.glob("/tmp/mut/C??/MUTANT/[12]")):
-    prop = m.split("/")[3]; n = m.split("/")[5]
-    tag = "%s-%s" % (prop, n)
+for m in sorted(glob.glob("/tmp/mut/*C??/MUTANT/[0-9]")):
+    dn = m.split("/")[3]; prop = dn[-3:]; n = m.split("/")[5]
+    tag = "%s-%s%s" % (prop, "" if dn == prop else "b", n)
     ev = json.load(open(os.path.join(m, "eval.json"))) if os.path.exists(os.path.join(m, "eval.json")) else {}
     fin = json.load(open(os.path.join(m, "final.json"))) if os.path.exists(os.path.join(m, "final.json")) else {}
     meta = json.load(open(os.path.join(m, "meta.json")))
